@@ -1,6 +1,8 @@
 import re
 from re import Pattern
 
+from flowmark.linewrapping.tag_handling import TEMPLATE_TAG_PATTERN
+
 ELLIPSIS_PATTERN: Pattern[str] = re.compile(
     r"(^|[\w\"\'“‘])(\s*)(\.\.\.)([.,:;?!)\-—\"\'”’]?)(\s*)",
     re.MULTILINE,
@@ -22,7 +24,15 @@ def ellipses(text: str) -> str:
       the punctuation.
     """
 
+    # Three-dot runs inside template tags or HTML comments are not prose; leave them alone
+    # (the same spans that smart quotes protects).
+    tag_spans = [m.span() for m in TEMPLATE_TAG_PATTERN.finditer(text)]
+
     def replace_match(match: re.Match[str]) -> str:
+        dots_start = match.start(3)
+        if any(start <= dots_start < end for start, end in tag_spans):
+            return match.group(0)
+
         prefix = match.group(1)
         spaces_before = match.group(2)
         punct = match.group(4)
